@@ -9,6 +9,7 @@ import (
 	"slices"
 	"sort"
 	"strings"
+	"sync"
 	"time"
 
 	"github.com/tigerwill90/fox"
@@ -101,6 +102,65 @@ func (hd cowHandle) routes() []string {
 	}
 	sort.Strings(out)
 	return out
+}
+
+// reverse answers a request through the handle: the pattern selected (with a marker for a trailing-slash match), ""
+// when nothing matches. Iterator handles answer through Iter.Reverse, which yields direct matches only.
+func (hd cowHandle) reverse(host, path string) string {
+	if hd.kind == "iter" {
+		out := ""
+		for _, rte := range hd.it.Reverse(slices.Values([]string{radixMethod}), host, path) {
+			out += rte.Pattern() + ";"
+		}
+		return out
+	}
+	rte, tsr := hd.txn.Reverse(radixMethod, host, path)
+	if rte == nil {
+		return ""
+	}
+	if tsr {
+		return rte.Pattern() + " (tsr)"
+	}
+	return rte.Pattern()
+}
+
+// reentrant ranges over the handle's routes with a second full pass started inside the first one: both passes see
+// every route (an iterator sequence keeps no state between or across its uses).
+func (hd cowHandle) reentrant() (outer, inner, plain int) {
+	it := hd.it
+	if hd.kind != "iter" {
+		it = hd.txn.Iter()
+	}
+	seq := it.All()
+	for range seq {
+		plain++
+	}
+	first := true
+	for range seq {
+		outer++
+		if first {
+			first = false
+			for range seq {
+				inner++
+			}
+		}
+	}
+	return
+}
+
+// freshReverse answers the same request on a router (safe for concurrent use), in the vocabulary of cowHandle.reverse.
+func freshReverse(rt *fox.Router, kind, host, path string) string {
+	if kind == "iter" {
+		return cowHandle{kind: "iter", it: rt.Iter()}.reverse(host, path)
+	}
+	rte, tsr := rt.Reverse(radixMethod, host, path)
+	if rte == nil {
+		return ""
+	}
+	if tsr {
+		return rte.Pattern() + " (tsr)"
+	}
+	return rte.Pattern()
 }
 
 type cowReal struct {
@@ -251,6 +311,30 @@ func runCowPool(r *Run, name string, g *cowGen, rng *rand.Rand) {
 	if len(edges) == 0 {
 		failTool("MC_Cow %s emitted no transition", name)
 	}
+	probes := radixProbes(rng, g.Pool)
+	type freshRouter struct{ rt *fox.Router }
+	var freshMu sync.Mutex
+	freshCache := map[string]freshRouter{}
+	freshFor := func(routes []string) freshRouter {
+		k := strings.Join(routes, "\x00")
+		freshMu.Lock()
+		defer freshMu.Unlock()
+		if f, ok := freshCache[k]; ok {
+			return f
+		}
+		rt, err := fox.New()
+		if err != nil {
+			failTool("fox.New: %v", err)
+		}
+		for _, p := range routes {
+			if _, err := rt.Handle(radixMethod, p, routeHandler(p)); err != nil {
+				failTool("a route set of the model is refused by a fresh router: %s: %v", p, err)
+			}
+		}
+		f := freshRouter{rt: rt}
+		freshCache[k] = f
+		return f
+	}
 	parallelEdges := func(i int) {
 		e := &edges[i]
 		if r.tooManyViolations() {
@@ -302,6 +386,51 @@ func runCowPool(r *Run, name string, g *cowGen, rng *rand.Rand) {
 					return
 				}
 				r.addCov("cow_snapshots_reread", 1)
+				// requests answered through the snapshot: as a fresh router holding the snapshot's routes answers them
+				fresh := freshFor(want)
+				for _, pr := range probes {
+					a := hd.reverse(pr[0], pr[1])
+					b := freshReverse(fresh.rt, hd.kind, pr[0], pr[1])
+					if a != b {
+						d := detail()
+						d["prescribed"] = b
+						d["obtained"] = a
+						d["snapshot"], d["host"], d["path"] = i+1, pr[0], pr[1]
+						r.violation(fmt.Sprintf("cow: snapshot %d (%s) answers %s %s differently from a router holding the routes it was taken with", i+1, hd.kind, pr[0], pr[1]), d)
+						return
+					}
+				}
+				if o, in, pl := hd.reentrant(); o != pl || in != pl || pl != len(want) {
+					d := detail()
+					d["prescribed"] = fmt.Sprintf("%d routes in every pass", len(want))
+					d["obtained"] = fmt.Sprintf("plain pass %d, outer pass %d, pass started inside it %d", pl, o, in)
+					r.violation(fmt.Sprintf("cow: snapshot %d (%s): two passes over one iterator sequence disturb each other", i+1, hd.kind), d)
+					return
+				}
+			}
+			// the transaction reads its own writes (nothing follows in this replay, so reading it changes nothing)
+			if c.txn != nil {
+				want := e.modelRoutes(e.TxRoot)
+				own := cowHandle{kind: "txn", txn: c.txn}
+				fresh := freshFor(want)
+				for _, pr := range probes {
+					a, b := own.reverse(pr[0], pr[1]), freshReverse(fresh.rt, "txn", pr[0], pr[1])
+					ai, bi := cowHandle{kind: "iter", it: c.txn.Iter()}.reverse(pr[0], pr[1]), freshReverse(fresh.rt, "iter", pr[0], pr[1])
+					if a != b || ai != bi {
+						d := detail()
+						d["prescribed"] = map[string]string{"Txn.Reverse": b, "Txn.Iter.Reverse": bi}
+						d["obtained"] = map[string]string{"Txn.Reverse": a, "Txn.Iter.Reverse": ai}
+						d["host"], d["path"] = pr[0], pr[1]
+						r.violation(fmt.Sprintf("cow: the write transaction answers %s %s differently from a router holding its routes", pr[0], pr[1]), d)
+						return
+					}
+				}
+				if got := own.routes(); !slices.Equal(got, want) {
+					d := detail()
+					d["prescribed"], d["obtained"] = want, got
+					r.violation("cow: the write transaction does not list its own routes", d)
+					return
+				}
 			}
 			// the heap: value and sharing
 			roots := []int{e.Pub}
@@ -350,6 +479,8 @@ var cowPools = []struct {
 	{"path", []string{"/a", "/a/b", "/a/c", "/ab"}},
 	{"host", []string{"a.b/", "a.b/a", "a.c/", "/a"}},
 	{"wild", []string{"/{x}", "/{x}/b", "/a", "/a{x}"}},
+	// a node whose key holds an infix catch-all, with two levels of edges below it (a write two levels down clones it)
+	{"infix", []string{"/a/*{w}/b/c", "/a/*{w}/b/d", "/a/*{w}/b/c/e", "/a/*{w}/b/d/e"}},
 }
 
 func runCow(r *Run) {
@@ -362,12 +493,10 @@ func runCow(r *Run) {
 		if r.quick() {
 			// the whole mechanism state space of a three-pattern pool; the seed chooses which pattern is left out
 			i := rng.Intn(len(pool))
-			pool = slices.Delete(pool, i, i+1)
-		} else {
-			q := genPattern(rng, p.name == "host", 2)
-			if !slices.Contains(pool, q) {
-				pool = append(pool, q)
+			if p.name == "infix" {
+				i = len(pool) - 1
 			}
+			pool = slices.Delete(pool, i, i+1)
 		}
 		runCowPool(r, p.name, &cowGen{Pool: pool, MaxRoutes: 3, MaxSnaps: 1, MaxHist: 60, Variant: "none"}, rng)
 	}
